@@ -73,6 +73,7 @@ func (w *World) runFree(deadline time.Duration) bool {
 		}()
 	}
 	ok := w.waitFree(deadline)
+	w.observeTunnels() // which tunnels are (still) up now that the workload is over
 	if ok {
 		// every event gets its turn even if the workload finished first
 		for j := 0; j < 2000 && int(fired.Load()) < len(w.c.Events); j++ {
@@ -80,6 +81,14 @@ func (w *World) runFree(deadline time.Duration) bool {
 		}
 	}
 	w.setPhase("end")
+	w.mu.Lock()
+	for _, o := range w.tr.Ops {
+		if o.End < 0 {
+			o.PendingAtEnd = true
+		}
+	}
+	w.frozen = true // what happens from here on is the harness's own teardown
+	w.mu.Unlock()
 	w.teardownFree()
 	return ok
 }
@@ -223,6 +232,22 @@ func (w *World) teardownFree() {
 	for _, s := range w.net.Streams() {
 		s.Break(true, true)
 	}
+	// wait for stragglers: operations released by the teardown must have written their records before the
+	// monitors read the trace (they run on another goroutine)
+	for j := 0; j < 10000; j++ {
+		w.mu.Lock()
+		busy := false
+		for _, a := range w.actors {
+			if a.busy {
+				busy = true
+			}
+		}
+		w.mu.Unlock()
+		if !busy {
+			break
+		}
+		time.Sleep(500 * time.Microsecond)
+	}
 	w.tr.Frames = w.net.Frames()
 	w.tr.Panics = append(w.tr.Panics, w.net.Panics()...)
 	w.mu.Lock()
@@ -274,6 +299,8 @@ func execStress(t *testing.T, c *Case) *Trace {
 		tr.Aborted = "stress run did not finish within 20s"
 		tr.Notes = append(tr.Notes, string(buf[:n]))
 	}
+	// hand the monitors a private copy: goroutines released by the teardown may still be writing the live records
+	tr = w.copyTrace()
 	// give the race detector's report a moment to be flushed
 	if after := raceLogSize(); after > before {
 		tail := raceLogTail(before)
@@ -402,4 +429,121 @@ func raceInvolvesLibrary(log string) bool {
 		}
 	}
 	return false
+}
+
+// genStressCancel: bystanders plus RPCs whose context is already cancelled, or is cancelled very early, run free on all Ps.
+func genStressCancel(t *rapid.T) *Case {
+	c := &Case{Prop: "stress_cancel", Free: true}
+	c.Cfg = Config{Dir: rapid.SampledFrom([]string{"fwd", "rev"}).Draw(t, "dir"), ClientFC: "on", ServerFC: "on"}
+	nb := rapid.IntRange(1, 3).Draw(t, "nbystanders")
+	for i := 0; i < nb; i++ {
+		r := genBystander(t, fmt.Sprintf("b%d", i))
+		c.RPCs = append(c.RPCs, r)
+	}
+	nv := rapid.IntRange(2, 8).Draw(t, "nvictims")
+	for i := 0; i < nv; i++ {
+		r := genBystander(t, fmt.Sprintf("v%d", i))
+		r.Role = "victim"
+		r.HWaitRecv = false
+		if rapid.Bool().Draw(t, fmt.Sprintf("v%d.pre", i)) {
+			r.PreCancel = true
+		} else {
+			c.Events = append(c.Events, Event{Kind: "cancel_rpc", Target: len(c.RPCs), After: rapid.IntRange(0, 6).Draw(t, fmt.Sprintf("v%d.after", i))})
+		}
+		if rapid.IntRange(0, 2).Draw(t, fmt.Sprintf("v%d.bigmd", i)) == 0 {
+			// large request metadata stretches the window between id allocation and the first send
+			r.ReqMD = map[string][]string{}
+			for k := 0; k < 150; k++ {
+				r.ReqMD[fmt.Sprintf("k%04d", k)] = []string{"0123456789012345678901234567890123456789"}
+			}
+		}
+		c.RPCs = append(c.RPCs, r)
+	}
+	return c
+}
+
+// monStressSurvival: cancelling RPCs never harms the others nor the tunnel; wire order of stream openings (schedule independent).
+func monStressSurvival(prop string) Monitor {
+	return func(c *Case, tr *Trace) []Violation {
+		var vs []Violation
+		add := func(class, f string, a ...any) {
+			vs = append(vs, Violation{Prop: prop, Class: class, Details: fmt.Sprintf(f, a...)})
+		}
+		if tr.Aborted != "" {
+			return nil // inconclusive, reported by the C15 check
+		}
+		for _, p := range tr.Panics {
+			add("panic", "%s", p)
+		}
+		if prop == "C07" || prop == "C03" {
+			for i := range c.RPCs {
+				if c.RPCs[i].Role == "bystander" {
+					if msg := bystanderComplete(c, tr, i, 1<<30); msg != "" {
+						add("bystander_harmed", "under real parallelism: bystander rpc %d (%s) did not complete normally: %s", i, c.RPCs[i].Shape, msg)
+					}
+				}
+			}
+			for _, t := range tr.Tunnels {
+				if t.DoneStep >= 0 || t.ServeReturned >= 0 {
+					add("tunnel_killed", "under real parallelism: tunnel %d ended (err %q, serve err %q) although only RPC contexts were cancelled", t.Idx, t.ChanErr, t.ServeErr)
+				}
+			}
+		}
+		if prop == "C08" {
+			for _, v := range monC08(c, tr) {
+				vs = append(vs, v)
+			}
+		}
+		return vs
+	}
+}
+
+// copyTrace deep-copies the trace under the locks that order all writes to it. Operations that are still in progress
+// are copied as pending with their identity fields only (their result fields may be written concurrently).
+func (w *World) copyTrace() *Trace {
+	w.mu.Lock()
+	src := w.tr
+	out := &Trace{Steps: src.Steps, TapeUsed: src.TapeUsed, Aborted: src.Aborted, Deadlock: src.Deadlock, PhaseStart: map[string]int{}, Labels: map[string]int{}}
+	for k, v := range src.PhaseStart {
+		out.PhaseStart[k] = v
+	}
+	for k, v := range src.Labels {
+		out.Labels[k] = v
+	}
+	out.Notes = append(out.Notes, src.Notes...)
+	out.Panics = append(out.Panics, src.Panics...)
+	out.Yields = append(out.Yields, src.Yields...)
+	for _, o := range src.Ops {
+		if o.End >= 0 {
+			c := *o
+			out.Ops = append(out.Ops, &c)
+		} else {
+			out.Ops = append(out.Ops, &OpRec{Seq: o.Seq, Actor: o.Actor, RPC: o.RPC, Side: o.Side, Kind: o.Kind, Idx: o.Idx, Start: o.Start, End: -1, Code: CodeNil, PendingAtEnd: true})
+		}
+	}
+	for _, inv := range src.Invocations {
+		c := *inv
+		out.Invocations = append(out.Invocations, &c)
+	}
+	for _, e := range src.Events {
+		c := *e
+		out.Events = append(out.Events, &c)
+	}
+	for _, t := range src.Tunnels {
+		c := *t
+		c.Callbacks = append([]string(nil), t.Callbacks...)
+		out.Tunnels = append(out.Tunnels, &c)
+	}
+	for _, sn := range src.Snapshots {
+		c := *sn
+		out.Snapshots = append(out.Snapshots, &c)
+	}
+	w.mu.Unlock()
+	w.net.mu.Lock()
+	for _, f := range w.net.frames {
+		c := *f
+		out.Frames = append(out.Frames, &c)
+	}
+	w.net.mu.Unlock()
+	return out
 }
